@@ -97,7 +97,7 @@ class C10(C01):
                 out.append(viol("pool-slot-lost", rec, used=rec.extra["pool_used"],
                                 interrupted=bool(rec.fired)))
             if rec.outcome == "raise" and isinstance(rec.exc, RuntimeError):
-                out.append(viol("pool-exhausted", rec, err=str(rec.exc)))
+                out.append(viol("pool-exhausted", rec, err=engine._exc_text(rec.exc)))
             if rec.fired:
                 interrupted = True
                 continue
